@@ -128,8 +128,8 @@ class ThreadWorker(Worker):
         if self._set_names:
             setthreadtitle(self.name, self)
 
-        self._startup_sync.set()
         try:
+            self._startup_sync.set()
             assert self.is_child
             self._init_child()
             self._result = (True, self.do_work())
